@@ -60,8 +60,9 @@ def e1_bucket_exhaustiveness(ctx) -> None:
         ctx.violation("E1", P.need_class(EX).node, "MINIMIZE_ORDER lists a bucket twice", construct="ForestRuleExtractor.MINIMIZE_ORDER")
     # the sorting table has a list for each bucket of the order
     m = P.need_method(EX, "_sorted_stable_rules", own=True)
+    from ..core import pattern as PT
     t = norm(m.node)
-    if "for bucket in self.MINIMIZE_ORDER" in t or "for bucket in ForestRuleExtractor.MINIMIZE_ORDER" in t:
+    if PT.find_all(m.node, "{_M_b: [] for _M_b in self.MINIMIZE_ORDER}") or PT.find_all(m.node, "{_M_b: [] for _M_b in ForestRuleExtractor.MINIMIZE_ORDER}"):
         ctx.ok("E1", "_sorted_stable_rules prepares one list per bucket of MINIMIZE_ORDER")
     else:
         ctx.violation("E1", m.node, "_sorted_stable_rules no longer prepares a list for every bucket of MINIMIZE_ORDER", construct=f"{EX}._sorted_stable_rules")
@@ -145,6 +146,12 @@ def e3_key_function_agreement(ctx) -> None:
                 okr = (norm(it) == f"range(len({rule_txt}.children))" and len(c.args) == 1 and norm(c.args[0]) == norm(tgt) and not ifs)
             gt = C.guard_texts(f, c)
             rev_guard = (f"{rule_txt}.is_reversible()", True) in gt
+            # nothing else may restrict which rules get their reverse forms (self.reverse is the database's own option)
+            extra = sorted(t for t, p in gt if p and t not in (f"{rule_txt}.is_reversible()", "self.reverse") and not t.startswith("isinstance("))
+            if okr and rev_guard and extra and mname == "_find_rule":
+                ctx.violation("E3", c, f"reverse forms are only rebuilt under the extra condition(s) {extra}: a reverse rule filed under another bucket "
+                              "(the reverse of an equivalence is filed as EQUIV) can then never be turned back into a rule")
+                continue
             if okr and rev_guard:
                 ctx.ok("E3", f"{m.qualname}: to_reverse_rule(i) for every i in range(len({rule_txt}.children)) under is_reversible()")
             elif not okr:
